@@ -2039,6 +2039,7 @@ class Workflow(Trellis):
         )
         if old_step is not None:
             self._raise_if_recycled_products_conflict(old_step)
+            self._refresh_recycled_nglobs(old_step)
             # Look for UNCONFIRMED inputs that match a static tree.
             # Their existence still needs to be checked,
             # ideally confirmed by a hash job submitted for them.
@@ -2097,6 +2098,36 @@ class Workflow(Trellis):
 
         logger.info("Define step: %s", step.label)
         return self._hashes_to_check(unconfirmed)
+
+    def _refresh_recycled_nglobs(self, step: Step) -> None:
+        """Bring the recorded glob matches of a fully recycled step up to date.
+
+        A fully recycled step keeps its state, its stored hash and the matches recorded for
+        its patterns, and so do the steps it (recursively) created.
+        While these steps were detached, nothing followed their patterns:
+        the start-up scan and the watcher only look at the patterns of attached steps.
+        A match that appeared or vanished in the meantime would therefore go unnoticed
+        and the step would be skipped with an outdated match set.
+        Each recorded match set is compared with a fresh scan, as `rescan_nglobs` does at
+        start-up, and a step whose matches changed loses its hash and becomes pending.
+        """
+        sql = """
+        WITH RECURSIVE revived(i) AS (
+            SELECT ?
+            UNION ALL
+            SELECT node.i FROM node JOIN revived ON node.creator = revived.i
+            WHERE node.kind = 'step'
+        )
+        SELECT node.i, node.label, nglob.i, nglob.data FROM nglob
+        JOIN node ON node.i = nglob.node JOIN revived ON revived.i = node.i
+        WHERE NOT node.detached
+        """
+        for node_i, label, nglob_i, data in self.db.execute(sql, (step.i,)).fetchall():
+            old_ng = json_converter.structure(json.loads(data), NamedGlob)
+            new_ng = NamedGlob(old_ng.pattern, old_ng.subs)
+            new_ng.glob()
+            if set(new_ng.files()) != set(old_ng.files()):
+                self.persist_nglob_matches(nglob_i, Step(self, node_i, label), new_ng)
 
     def _raise_if_recycled_products_conflict(self, step: Step) -> None:
         """Validate the products that a fully recycled step brings back.
